@@ -14,17 +14,17 @@ theorem TreeOK.walkLoop_hit {skip : List Bytes} {fs : FS} (h : TreeOK skip fs) (
     ∀ (rest done : List Bytes) (cur i : Nat), GoodComps (done ++ rest) →
       fs.get? (pathOf done) = some cur →
       (∀ pre suf, done ++ rest = pre ++ suf → pre ≠ [] → joinSlash pre ∉ skip) →
-      fs.get? (pathOf (done ++ rest)) = some i →
+      fs.get? (pathOf (done ++ rest)) = some i → (fs.ino i).kind ≠ .sym →
       walkLoop mk fs cur (joinSlash done) done.isEmpty rest = (fs, .ok i) := by
   intro rest
   induction rest with
   | nil =>
-    intro done cur i _ hcur _ hi
+    intro done cur i _ hcur _ hi _
     simp only [List.append_nil] at hi
     rw [hcur] at hi; cases hi
     simp [walkLoop]
   | cons n rest ih =>
-    intro done cur i hg hcur hsk hi
+    intro done cur i hg hcur hsk hi hisym
     have hg1 : GoodComps (done ++ [n]) := fun x hx => hg x (by simp at hx ⊢; rcases hx with hx | hx <;> simp [hx])
     have hg2 : GoodComps ((done ++ [n]) ++ rest) := by simpa [List.append_assoc] using hg
     have hfull : pathOf (done ++ n :: rest) = joinSlash ((done ++ [n]) ++ rest) := by
@@ -53,10 +53,10 @@ theorem TreeOK.walkLoop_hit {skip : List Bytes} {fs : FS} (h : TreeOK skip fs) (
       subst hci
       rcases h.kinds _ c hb with ⟨hk, _⟩ | ⟨hk, _⟩
       · rw [(resolve_plain mk _ _ fs c).1 hk]; simp [walkLoop]
-      · rw [(resolve_plain mk _ _ fs c).2 hk]; simp [walkLoop]
+      · rw [(resolve_plain mk _ _ fs c).2 hk hisym]; simp [walkLoop]
     · rw [(resolve_plain mk rest.isEmpty _ fs c).1 (hck hr)]
       simp only
-      have := ih (done ++ [n]) c i hg2 (by rw [hpath]; exact hb) hsk' (by simpa [pathOf] using hi)
+      have := ih (done ++ [n]) c i hg2 (by rw [hpath]; exact hb) hsk' (by simpa [pathOf] using hi) hisym
       rw [hempty] at this
       exact this
 
@@ -97,6 +97,58 @@ theorem xMkdirs_frame : ∀ (ds : List Bytes) (t t' : XTree), xMkdirs t ds = som
     · exact ih _ _ h k hk.2
     · cases h
 
+
+theorem prefixesAux_mem : ∀ (rest done pre suf : List Bytes), rest = pre ++ suf → pre ≠ [] →
+    joinSlash (done ++ pre) ∈ prefixesAux (joinSlash done) done.isEmpty rest := by
+  intro rest
+  induction rest with
+  | nil => intro done pre suf e hp; cases pre <;> simp at e hp
+  | cons n rest ih =>
+    intro done pre suf e hp
+    cases pre with
+    | nil => exact absurd rfl hp
+    | cons x pre' =>
+      simp only [List.cons_append, List.cons.injEq] at e
+      obtain ⟨rfl, e⟩ := e
+      simp only [prefixesAux, joinSlash_done, List.mem_cons]
+      by_cases hp' : pre' = []
+      · subst hp'; left; rfl
+      · right
+        have hempty : (done ++ [n]).isEmpty = false := by simp
+        have := ih (done ++ [n]) pre' suf e hp'
+        rw [hempty] at this
+        simpa [List.append_assoc] using this
+
+/-- `mkdir -p` succeeds only on names that are missing or directories. -/
+theorem xMkdirs_ok_elems : ∀ (ds : List Bytes) (t t1 : XTree), xMkdirs t ds = some t1 →
+    ∀ d ∈ ds, alGet t d = none ∨ alGet t d = some .dir := by
+  intro ds
+  induction ds with
+  | nil => intro t t1 _ d hd; simp at hd
+  | cons d0 ds ih =>
+    intro t t1 hx d hd
+    simp only [xMkdirs] at hx
+    simp only [List.mem_cons] at hd
+    cases h0 : alGet t d0 with
+    | none =>
+      simp only [h0] at hx
+      rcases hd with rfl | hd
+      · exact Or.inl h0
+      · have := ih _ _ hx d hd
+        rw [alGet_alSet] at this
+        by_cases e : d0 = d
+        · subst e; exact Or.inl h0
+        · simpa [e] using this
+    | some node =>
+      cases node with
+      | dir =>
+        simp only [h0] at hx
+        rcases hd with rfl | hd
+        · exact Or.inr h0
+        · exact ih _ _ hx d hd
+      | file x => simp [h0] at hx
+      | sym x => simp [h0] at hx
+      | special => simp [h0] at hx
 
 /-- The `AddEnt:` loop for a registered, not yet connected name `n` whose
     directory path holds no regular file: it connects `n` to its directory,
@@ -151,13 +203,27 @@ theorem addEnt_plain (fuel f : Nat) {fs1 : FS} {init : List Bytes} {c : Bytes} (
     have hget2' : fs2.get? (dirOf (joinSlash (init ++ [c]))) = some j := by
       rw [hdj]; simpa [pathOf, hi] using hget2
     have hdc' : Contained (dirOf (joinSlash (init ++ [c]))) := by rw [hdj]; exact hdc
-    rw [h.getInode_eq hdc' (by rw [hdj, hsplit]; exact hsk)]
+    -- every prefix of the directory that is a key is a directory
+    have hkd : ∀ pre suf, init = pre ++ suf → pre ≠ [] → ∀ i, fs1.get? (joinSlash pre) = some i →
+        (fs1.ino i).kind = .dir := by
+      intro pre suf e hp i hgi'
+      have hm := prefixesAux_mem init [] pre suf e hp
+      simp only [List.nil_append, joinSlash, List.isEmpty_nil] at hm
+      have hnode := hrep (joinSlash pre) (hsk pre suf e hp)
+      simp only [FS.node?, hgi'] at hnode
+      rcases xMkdirs_ok_elems _ _ _ hx _ hm with hn | hn
+      · rw [hn] at hnode; cases hnode
+      · rw [hn] at hnode
+        exact (inoNode_dir_iff _).1 (Option.some.inj hnode)
+    rw [h.getInode_eq hdc' (by rw [hdj, hsplit]; exact hsk)
+      (by rw [hdj, hsplit]; intro pre suf e hp _ i hgi'; rw [hkd pre suf e hp i hgi']; simp)]
     rw [hdj]
     cases hget : fs1.get? (joinSlash init) with
     | some j' =>
       -- found: the walk would have changed nothing
       have hhit := h.walkLoop_hit (some (mkdirFn fuel)) init [] 0 j' (by simpa using hgi)
         (by simpa [pathOf] using h.root) (by simpa using hsk) (by simpa [pathOf, hi] using hget)
+        (by rw [hkd init [] (by simp) hi j' hget]; simp)
       simp only [joinSlash, List.isEmpty_nil] at hhit
       rw [hhit] at hw
       simp only [Prod.mk.injEq, Except.ok.injEq] at hw
@@ -188,17 +254,20 @@ theorem add_member_fresh (fuel : Nat) {fs : FS} {t t1 : XTree} {init : List Byte
     (h : TreeOK [] fs) (hrep : Rep [] fs t)
     (hg : GoodComps (init ++ [c])) (hu : ∀ x ∈ init ++ [c], ValidU x)
     (hfresh : fs.get? (joinSlash (init ++ [c])) = none)
-    (hleaf : LeafIno ino)
+    (hleaf : LeafIno ino) (hxl : ino.kind = .sym → Contained ino.link)
     (hx : xMkdirs t (prefixesAux [] true init) = some t1) :
     ∃ fs', add (fuel + 2) fs hl (joinSlash (init ++ [c])) ino u =
         (fs', if u then alDel hl (joinSlash (init ++ [c])) else hl, none) ∧
       TreeOK [] fs' ∧ Rep [] fs' (alSet t1 (joinSlash (init ++ [c])) (inoNode ino)) := by
   have hnc : Contained (joinSlash (init ++ [c])) := contained_joinSlash (by simp) hg hu
   have hnd : joinSlash (init ++ [c]) ≠ dotP := joinSlash_ne_dot (by simp) hg
-  have hnl : ino.kind ≠ .link := by rcases hleaf with ⟨hk, _⟩ | ⟨hk, _⟩ <;> simp [hk]
+  have hnl : ino.kind ≠ .link := by
+    rcases hleaf with ⟨hk, _⟩ | ⟨_, hk, _⟩
+    · simp [hk]
+    · exact hk
   have hleaf' : LeafIno { ino with name := joinSlash (init ++ [c]) } := hleaf
   -- registered, not yet connected
-  have h1 := h.pend hnc hfresh (x := { ino with name := joinSlash (init ++ [c]) }) rfl hleaf'
+  have h1 := h.pend hnc hfresh (x := { ino with name := joinSlash (init ++ [c]) }) rfl hleaf' hxl
   have hrep1 : Rep [joinSlash (init ++ [c])] (fs.pend (joinSlash (init ++ [c])) { ino with name := joinSlash (init ++ [c]) }) t := by
     intro k hk
     simp only [List.mem_singleton] at hk
@@ -224,14 +293,15 @@ theorem add_member_fresh (fuel : Nat) {fs : FS} {t t1 : XTree} {init : List Byte
   rw [hent']
   -- the pending key survived the walk
   have hpk : fs2.get? (joinSlash (init ++ [c])) = some fs.inodes.length ∧
-      (fs2.ino fs.inodes.length).kind = ino.kind ∧ (fs2.ino fs.inodes.length).data = ino.data := by
+      (fs2.ino fs.inodes.length).kind = ino.kind ∧ (fs2.ino fs.inodes.length).data = ino.data ∧
+      (fs2.ino fs.inodes.length).link = ino.link := by
     have := hE (joinSlash (init ++ [c])) fs.inodes.length (by rw [pend_get]; simp)
     rw [pend_ino_len] at this
     exact this
   obtain ⟨cs, hcs⟩ : ∃ cs, (fs2.ino j).children = some cs := by
     rcases hT.kinds _ j hget with ⟨_, hc⟩ | ⟨hk, _⟩
     · exact hc
-    · rw [hkind] at hk; cases hk
+    · exact absurd hkind hk
   have hdne := dirOf_ne_self hnc hnd
   refine ⟨_, rfl, ?_, ?_⟩
   · exact hT.connect hpk.1 hnd (by simp) hget (by simp) hkind hcs
@@ -240,7 +310,7 @@ theorem add_member_fresh (fuel : Nat) {fs : FS} {t t1 : XTree} {init : List Byte
     by_cases hk : joinSlash (init ++ [c]) = k
     · subst hk
       simp only [if_true, FS.node?, hpk.1]
-      rw [inoNode_congr hpk.2.1 hpk.2.2]
+      rw [inoNode_congr hpk.2.1 hpk.2.2.1 hpk.2.2.2]
     · simp only [hk, if_false]
       exact hR k (by simp [Ne.symm hk])
 
@@ -312,17 +382,16 @@ theorem add_member_replace (fuel : Nat) {fs : FS} {t : XTree} {init : List Bytes
     have hseti : ({ fs with inodes := fs.inodes.set i { ino with name := joinSlash (init ++ [c]) } } : FS).ino i =
         { ino with name := joinSlash (init ++ [c]) } := ino_set_eq fs _ hil
     have hnone : (fs.ino i).children = none := by
-      rcases h.kinds _ i hi with ⟨hk, _⟩ | ⟨_, hc, _⟩
+      rcases h.kinds _ i hi with ⟨hk, _⟩ | ⟨_, _, hc, _⟩
       · rw [hik] at hk; cases hk
       · exact hc
     constructor
     · exact h.inv.setIno i _ ⟨hnc, by simp [hleaf.1]⟩
     · exact h.root
     · rw [hset 0 (Ne.symm hi0)]; exact h.rootDir
-    · intro t'
-      by_cases ht : t' = i
-      · subst ht; rw [hseti]; exact Or.inr hleaf.1
-      · rw [hset t' ht]; exact h.plain t'
+    · intro t' ht'
+      have ht'' : t' < fs.inodes.length := by simpa using ht'
+      exact h.keyed t' ht''
     · intro k t' hk
       have hk' : fs.get? k = some t' := hk
       by_cases ht : t' = i
@@ -335,7 +404,8 @@ theorem add_member_replace (fuel : Nat) {fs : FS} {t : XTree} {init : List Bytes
     · intro k t' hk
       have hk' : fs.get? k = some t' := hk
       by_cases ht : t' = i
-      · subst ht; rw [hseti]; exact Or.inr hleaf
+      · subst ht; rw [hseti]
+        exact Or.inr ⟨by simp [hleaf.1], by simp [hleaf.1], hleaf.2.1, fun _ => hleaf.2.2⟩
       · rw [hset t' ht]; exact h.kinds k t' hk'
     · intro k t' hk hkd hks
       have hk' : fs.get? k = some t' := hk
